@@ -7,6 +7,7 @@ from __future__ import annotations
 
 import base64
 import importlib
+import os
 import pickle
 import sys
 
@@ -16,6 +17,20 @@ from mdmc import core
 def main(argv):
     mode, modname, blob, out = argv
     arg = pickle.loads(base64.b64decode(blob))
+    cfg = os.environ.get("MDMC_HOSTCFG", "")
+    if cfg == "@debuglog":
+        import logging
+
+        logging.basicConfig(level=logging.DEBUG, stream=open(os.devnull, "w"))
+        logging.getLogger().setLevel(logging.DEBUG)
+        logging.getLogger("multidecoder").setLevel(logging.DEBUG)
+    elif cfg == "@env":
+        import locale
+
+        try:
+            locale.setlocale(locale.LC_ALL, "C")
+        except locale.Error:
+            pass
     core.bind()
     if mode == "unit":
         packed = core._call((modname, arg))
@@ -27,7 +42,6 @@ def main(argv):
         packed = rec.pack()
     with open(out + ".tmp", "wb") as f:
         f.write(pickle.dumps(packed))
-    import os
     os.replace(out + ".tmp", out)
 
 
